@@ -190,7 +190,7 @@ def check_odeint(res, model):
             res.violation("oracle", f"odeint: {n} observer calls with mxsteps={mx}"
                                     + (f" (set through Reset after Init with {via})" if via is not None else "") + f": Solve returns {flag}", case)
         if model is not None:
-            m = model.call("solve.odeint", mx, n)
+            m = model.call("solve.odeint", mx, n, *([via] if via is not None else []))
             if (m == "success") != (flag == 0):
                 res.corr_disagreements += 1
                 res.violation("correspondence", f"odeint: mxsteps={mx} calls={n}: implementation {flag}, model {m}", case)
